@@ -107,9 +107,10 @@ func plYAML(c plCfg, l plL) string {
 }
 
 // plGroup renders the discovered group.  Variants (all must give the same targets and hashes):
-//   0 labels on the target, 1 labels on the group, 2 the target listed twice, 3 = 0 in a fresh discovery,
-//   4 labels on the target AND (same values) on the group, 5 a second entry that differs only in a
-//   __meta label (dropped after relabeling), 6 a second entry with the default port written out
+//
+//	0 labels on the target, 1 labels on the group, 2 the target listed twice, 3 = 0 in a fresh discovery,
+//	4 labels on the target AND (same values) on the group, 5 a second entry that differs only in a
+//	__meta label (dropped after relabeling), 6 a second entry with the default port written out
 func plGroup(l plL, variant int) *targetgroup.Group {
 	tl := model.LabelSet{model.AddressLabel: model.LabelValue(l.Addr)}
 	gl := model.LabelSet{}
